@@ -99,9 +99,14 @@ def gen_grid():
                            'verify': verify}
                     yield {'kind': 'before', 'ts': ts, 't': t, 'now': now,
                            'verify': verify}
-        for width in (1, 2, 5, 1000):
+        # widths <= 0: the window [begin, end) is empty (begin == end) or
+        # inverted (begin > end): no timestamp is inside it
+        for width in (1, 2, 5, 1000, 0, -1, -2, -5, -1000):
             begin, end = ts, ts + width
-            tt = {begin + d for d in range(-2, 3)} | {end + d for d in range(-2, 3)}
+            if end < 0:
+                continue
+            tt = {begin + d for d in range(-2, 3)} | \
+                {end + d for d in range(-2, 3)} | {(begin + end) // 2}
             for t in sorted(x for x in tt if x >= 0):
                 for now in (t, t - 59, t - 60, t + 1000):
                     if now < 0:
